@@ -11,7 +11,8 @@ C17 driver (stateful).  Case lines as written by harness/c17/main.go:
 
 The model runs the code variant the regenerated facts say the source is (`codeVariant`).
 Verdicts (on the IMPLEMENTATION's output): `vhs` → hostVerdict, `next` → nextVerdict (reference choice over the
-tracked state), `kick` → chainVerdict.
+tracked state), `kick` → chainVerdict, and for a kick from the current server firstKickVerdict
+(the first redirect must be the reference choice given the failed, current AND in-flight server at that moment).
 -/
 namespace Gate.C17
 open Gate
@@ -89,7 +90,10 @@ def stepCase (d : DState) (c : Case) : DState × String × String :=
     let o := if mode = "d" then backendKick codeVariant d.w 64 d.s rs [75] (safe = "1")
              else kick codeVariant d.w 64 d.s rs [70] (safe = "1")
     let implEvs := parseImplEvents ((c.impl.splitOn " ").headD "-")
-    let verdict := chainVerdict implEvs ((c.impl.splitOn " ").contains "runaway")
+    let v1 := chainVerdict implEvs ((c.impl.splitOn " ").contains "runaway")
+    let fromCurrent := d.s.active && safe = "1" && (d.s.conn.isNone || d.s.conn == some rs)
+    let verdict := if v1 != "ok" then v1
+      else if fromCurrent then firstKickVerdict d.w d.s rs implEvs.head? else v1
     (⟨d.w, o.st⟩, showOut o, verdict)
   | _, _ => (d, "bad-case", "-")
 
